@@ -27,6 +27,6 @@
 /**
  * @brief Search for collisions and resolve them.
  */
-void reb_collision_search(struct reb_simulation* const r);
+int reb_collision_search(struct reb_simulation* const r); // Returns the number of collisions found.
 
 #endif // _COLLISIONS_H
